@@ -57,6 +57,17 @@ class NPFacade:
                 best = i
         return best
 
+    def log10(self, x):
+        if isinstance(x, SymReal):
+            import z3
+            from .values import _R
+            f = z3.Function("log10f", _R, _R)
+            return SymReal(f(x.e))
+        if isinstance(x, Fraction):
+            import math
+            return type(x)(math.log10(float(x)))
+        return np.log10(x)
+
     def sqrt(self, x):
         if isinstance(x, (SymReal, Fraction)) and hasattr(x, "sqrt"):
             return x.sqrt()
